@@ -195,7 +195,7 @@ def gen_helper(rng):
 def gen_sym(rng):
     style = rng.choice(['random', 'random', 'diagonal', 'rank1', 'rank2',
                         'repeated', 'repeated3', 'zero', 'int', 'near-diag',
-                        'tiny-offdiag'])
+                        'tiny-offdiag', 'sparsity', 'sparsity', 'zero-diag'])
     scale = rng.choice([1.0, 1.0, 10 ** rng.uniform(-8, 8), 1e-8, 1e8])
 
     def rot():
@@ -223,6 +223,15 @@ def gen_sym(rng):
         a = np.eye(3) * rnd_entry(rng)
     elif style == 'zero':
         a = np.zeros((3, 3))
+    elif style in ('sparsity', 'zero-diag'):
+        # every zero pattern of the six independent entries (pure shear =
+        # zero diagonal, single off-diagonal pair, ...)
+        pat = rng.randrange(64) if style == 'sparsity' else (rng.randrange(1, 8) << 3)
+        ent = [(0, 0), (1, 1), (2, 2), (0, 1), (0, 2), (1, 2)]
+        a = np.zeros((3, 3))
+        for k, (i, j) in enumerate(ent):
+            if pat >> k & 1:
+                a[i][j] = a[j][i] = rnd_entry(rng)
     elif style == 'int':
         a = np.array([[float(rng.randint(-3, 3)) for _ in range(3)]
                       for _ in range(3)])
